@@ -221,7 +221,7 @@ func c16Topology(c *Ctx, idx int, total int, steps []topoStep, failedUse bool, r
 		if st.Op == "add" || st.Op == "restart" {
 			ok := waitFor(func() bool {
 				for _, x := range bed.Cluster.Hosts[st.Host-1].Conns() {
-					if !x.Registered && x.Version != 0 {
+					if !x.IsRegistered() && x.Ver() != 0 {
 						return true
 					}
 				}
@@ -236,7 +236,7 @@ func c16Topology(c *Ctx, idx int, total int, steps []topoStep, failedUse bool, r
 			// the proxy closes the pools of a removed host; wait until that is observable so no request is in a window
 			waitFor(func() bool {
 				for _, x := range bed.Cluster.Hosts[st.Host-1].Conns() {
-					if !x.Registered {
+					if !x.IsRegistered() {
 						return false
 					}
 				}
@@ -306,7 +306,7 @@ func c16Heal(c *Ctx, idx int, hosts, conns int, fault string) {
 	pooledOpen := func(h int) int {
 		n := 0
 		for _, x := range bed.Cluster.Hosts[h-1].Conns() {
-			if !x.Registered && x.Version != 0 && !x.IsClosed() {
+			if !x.IsRegistered() && x.Ver() != 0 && !x.IsClosed() {
 				n++
 			}
 		}
@@ -344,7 +344,7 @@ func c16Heal(c *Ctx, idx int, hosts, conns int, fault string) {
 	case "mute-pooled":
 		var victim *fakecass.Conn
 		for _, x := range bed.Cluster.Hosts[target-1].Conns() {
-			if !x.Registered {
+			if !x.IsRegistered() {
 				victim = x
 			}
 		}
